@@ -54,6 +54,7 @@ def gen(rng, small=None):
         c['const_sizing'] = rng.choice(SIZINGS)
         c['route'] = 'operator'; c['target'] = 'none'; c.pop('t', None)
         c['const_carrier'] = rng.choice(['py', 'py', 'np'])      # the constant as a Python number or as a NumPy scalar (np.int64 / np.float64)
+        if rng.random() < 0.2: c['reuse'] = [rng.choice(RMODES), rng.choice(OMODES)]
     return c
 
 def run_impl(c, fx, np):
@@ -88,6 +89,16 @@ def run_impl(c, fx, np):
         fxp.config.op_input_size = c['input_size']; fxp.config.const_op_sizing = c['const_sizing']; fxp.config.op_method = c['method']
         k = c['const_val']
         if c.get('const_carrier') == 'np': k = np.int64(k) if isinstance(k, int) else np.float64(k)
+        if c.get('reuse'):
+            # the SAME object combined with the same constant earlier, under other modes that were changed since (x.config.rounding = ...):
+            # the conversion of the constant follows the configuration the object has NOW
+            r_now, o_now = fxp.config.rounding, fxp.config.overflow
+            fxp.config.rounding, fxp.config.overflow = c['reuse']
+            try:
+                if c['const'] == 'y': (x + k if c['op'] == '+' else (x - k if c['op'] == '-' else x * k))
+                else: (k + y if c['op'] == '+' else (k - y if c['op'] == '-' else k * y))
+            except Exception: pass
+            fxp.config.rounding, fxp.config.overflow = r_now, o_now
         kf = fxp._convert_op_input_value(k)           # the fixed-point constant the operator will use (same call the operator makes)
         info['const_fmt'] = A.fmt_of(kf); info['const_code'] = lib.codes_of(kf)[0]
         info['const_cfg'] = (kf.config.rounding, kf.config.overflow)
@@ -255,7 +266,9 @@ def shard(shard, nshards, rng, tier, extra):
         c['const_val'] = rng.choice([rng.randint(-300, 300) / 2.0**rng.randint(3, 6), rng.randint(-300, 300) / 4.0, 1000, -77.125])    # mostly not representable in the operand's format
         side = 'x' if c['const'] == 'y' else 'y'
         c2 = dict(c); c2['r' + side] = rng.choice([m for m in RMODES if m != c['r' + side]]); c2['o' + side] = rng.choice(OMODES)
-        c2['prelude'] = dict(c); seq.append(c2)
+        c2['prelude'] = dict(c)
+        if rng.random() < 0.5: c2['reuse'] = [c['r' + side], c['o' + side]]      # (also on the same object, the modes changed in between)
+        seq.append(c2)
     check(seq, res, 'Q:same-constant-under-two-configurations')
     unary(rng, res, tier, shard, nshards)
     return res
